@@ -1,6 +1,6 @@
 #include "../engine.h"
 #define P(x) Prop *make_##x();
-P(c01) P(c02) P(c03) P(c04) P(c05) P(c06) P(c10) P(c11) P(c12) P(c13) P(c16)
+P(c01) P(c02) P(c03) P(c04) P(c05) P(c06) P(c10) P(c11) P(c12) P(c13) P(c15) P(c16) P(c19)
 #undef P
 Prop *make_prop(const std::string &id) {
 	if (id == "C01") return make_c01();
@@ -13,6 +13,8 @@ Prop *make_prop(const std::string &id) {
 	if (id == "C11") return make_c11();
 	if (id == "C12") return make_c12();
 	if (id == "C13") return make_c13();
+	if (id == "C15") return make_c15();
 	if (id == "C16") return make_c16();
+	if (id == "C19") return make_c19();
 	return nullptr;
 }
